@@ -130,6 +130,66 @@ def gen_cases(rng, tier):
         spec["inject"] = None
         k += 1
         yield spec
+    # an experiment run in two legs (monitor only): Tuner.run(), Tuner.load() of the saved tuner, a larger budget, run() again - the
+    # table on disk has one row per result handed to the loop in EITHER leg
+    for _ in range(4 if tier == "quick" else 40):
+        yield {"two_legs": True, "seed": rng.randrange(10 ** 9), "n_workers": rng.randint(1, 4), "first": rng.randint(3, 10),
+               "second": rng.randint(12, 24), "sched": rng.choice(["fifo", "hb"]), "max_batch": rng.randint(1, 3)}
+
+
+def run_two_legs(spec):
+    import contextlib, io, shutil, tempfile
+    from syne_tune import Tuner, StoppingCriterion
+    from syne_tune.results_callback import StoreResultsCallback
+    from syne_tune.config_space import uniform
+    from syne_tune.experiments import load_experiment
+    old = os.environ.get("SYNETUNE_FOLDER")
+    tmp = tempfile.mkdtemp(prefix="c17legs_")
+    os.environ["SYNETUNE_FOLDER"] = tmp
+    mon = []
+    try:
+        be = loop.ScriptBackend(spec["seed"] % 9973, {"p_fail": 0.0, "p_extstop": 0.0, "max_batch": spec["max_batch"], "p_end_same_poll": 0.5,
+                                                      "stop_delay": 0, "p_finish_at_busy": 0.0, "style": "plain", "short_runs": None}, 4)
+        cs = {"x": uniform(0, 1), loop.MAXATTR: 4}
+        if spec["sched"] == "fifo":
+            from syne_tune.optimizer.schedulers.fifo import FIFOScheduler
+            sch = FIFOScheduler(cs, searcher="random", metric=loop.METRIC, mode="min", random_seed=spec["seed"] % 1000)
+        else:
+            from syne_tune.optimizer.schedulers.hyperband import HyperbandScheduler
+            sch = HyperbandScheduler(cs, searcher="random", metric=loop.METRIC, mode="min", resource_attr=loop.RES, max_t=4,
+                                     grace_period=1, reduction_factor=2, type="stopping", random_seed=spec["seed"] % 1000)
+        tuner = Tuner(trial_backend=be, scheduler=sch, stop_criterion=StoppingCriterion(max_num_evaluations=spec["first"]),
+                      n_workers=spec["n_workers"], sleep_time=0, callbacks=[StoreResultsCallback()], save_tuner=True,
+                      tuner_name="legs")
+        with contextlib.redirect_stdout(io.StringIO()):
+            tuner.run()
+        n1 = int(tuner.tuning_status.overall_metric_statistics.count)
+        df1 = load_experiment(str(tuner.name)).results
+        keys = ["trial_id", loop.RES, loop.METRIC]
+        first = [] if df1 is None else [tuple(r) for r in df1[keys].itertuples(index=False)]
+        t2 = Tuner.load(str(tuner.tuner_path))
+        t2.stop_criterion = StoppingCriterion(max_num_evaluations=spec["second"])
+        with contextlib.redirect_stdout(io.StringIO()):
+            t2.run()
+        n2 = int(t2.tuning_status.overall_metric_statistics.count)
+        df = load_experiment(str(t2.name)).results
+        on_disk = 0 if df is None else len(df)
+        both = [] if df is None else [tuple(r) for r in df[keys].itertuples(index=False)]
+        # the rows of the first leg are still there, in place; a FIFO scheduler takes every result, so that the table then has one row
+        # per result handed to the loop
+        if both[:len(first)] != first or (spec["sched"] == "fifo" and on_disk != n2):
+            mon.append({"signature": "c17:resumed-run-table-rows",
+                        "what": f"experiment run in two legs (Tuner.load in between): the table had {len(first)} rows after the first leg "
+                                f"({n1} results handed to the loop), {n2} results were handed to the loop in both legs; the table on disk has "
+                                f"{on_disk} rows and {'does not begin' if both[:len(first)] != first else 'begins'} with the rows of the first leg",
+                        "detail": {"spec": spec}})
+        return {"lines": [], "monitor": mon, "meta": {"hist": {"two-legs": 1, "two-legs:results-second-leg": n2 - n1}, "rows": n2, "trials": 2}}
+    finally:
+        if old is None:
+            os.environ.pop("SYNETUNE_FOLDER", None)
+        else:
+            os.environ["SYNETUNE_FOLDER"] = old
+        shutil.rmtree(tmp, ignore_errors=True)
 
 
 def corpus():
@@ -139,6 +199,8 @@ def corpus():
 
 
 def run_impl(spec):
+    if spec.get("two_legs"):
+        return run_two_legs(spec)
     t = loop.run_loop(spec)
     try:
         view = None if spec.get("no_view") else loop.experiment_view(t)
